@@ -22,6 +22,8 @@ EXPLANATION = (
     "decided.")
 
 T = "StorageProperties"
+EXPLANATION += (' R-STRBUF: copy_string on the linear domain with an allocation ghost (live, owned allocation of sufficient capacity; result owned, length fits). R-DIMS: owned frees, dimension loops 0..size-1, setter coverage; alias clause after a whole-record copy.')
+
 
 
 def owning_fields(prog, rec, prefix=""):
